@@ -227,6 +227,22 @@ def rules(rep, m):
         else:
             # every whole-struct store is the last thing before a return
             r4.ok()
+        # a whole-struct store must copy the whole summary type of this function: copying through the base type of a
+        # weighted summary leaves the weight sum behind
+        want_t = (f.params[0].get("type") or "").replace("*", "").replace("const ", "").strip()
+        for l, r_, k_, n_ in inv.stores(f):
+            ls = strip(l)
+            if render(l) == "*" + tgt or (ls["kind"] == "UnaryOperator" and ls.get("opcode") == "*" and
+                                          render(strip(kids(ls)[0], casts=True)) == tgt):
+                lt = (ls.get("type") or "").replace("const ", "").strip()
+                r4.instance("%s: whole store through type '%s'" % (f.name, lt))
+                if lt != want_t:
+                    rep.finding(r4, f.name, "merge:partial-copy", "%s copies into the target through '%s' although the target is a "
+                                "'%s': the fields of the derived part (the weight sum) keep their old values, so the merged "
+                                "summary's weighted moments are divided by a stale weight" % (f.name, lt, want_t), where=m.rel(loc(n_)))
+                    r4.fail()
+                else:
+                    r4.ok()
         st = {re.sub(r"^\w+(\.|->)", "", cx.canon(l)): cx.canon(r) for l, r, k, n_ in inv.stores(f) if r is not None}
         p1, p2 = f.params[1]["name"], f.params[2]["name"]
         def fld(p, x):
